@@ -78,7 +78,13 @@ def run_scenario(chk, sc, cfgseed, species_src, flavour="sched", workers=None):
     os.makedirs(d)
     cdir, out = os.path.join(d, "chk00005"), os.path.join(d, "converted")
     tval = rng.choice([1.6457727058794072e-11, 0.37, -2.5e-3, 123456.789])
-    data = gamma_chk.write_checkpoint(cdir, mesh, layouts, cfg_, ns=ns, nghost=ng, time=tval)
+    int_line = None
+    if cfgseed % 3 == 0:
+        # the header layout with an integer line in front of the time; there the time may be a WHOLE number (0 at the initial
+        # checkpoint).  (Without that line a whole-number time is indistinguishable from it: not generated.)
+        int_line = [0, 3, 12][(cfgseed // 3) % 3]
+        tval = [0.0, 2.0, 0.37, 1.6457727058794072e-11][(cfgseed // 9) % 4]
+    data = gamma_chk.write_checkpoint(cdir, mesh, layouts, cfg_, ns=ns, nghost=ng, time=tval, int_line=int_line)
     before = alpha.tree_digest(cdir)
     kw = {}
     if species_src == "plotfile":
@@ -173,7 +179,7 @@ def run(chk, replay):
                 "plotfile; signature = (levels, flags, per-level layout relation, finish class, species source, ghost width); "
                 "trivial = one level, everything in one file in header order, gradp only")
     chk.assumptions = ["the synthetic checkpoint writer follows test_assets/example_chk_3d (headers of all five subsets present)",
-                       "checkpoint times are non-integral (the reader's integer heuristic on the 4th header line is not exercised)"]
+                       "without the integer line in front of it the checkpoint time is non-integral (a whole number there is indistinguishable from that line)"]
     if replay:
         s = replay["scenario"]
         v = run_scenario(chk, s["sc"], s["cfgseed"], s["species_src"])
